@@ -28,6 +28,7 @@ int64_t nv_b, nv_o;
 double nv_other;                /* every untracked cell */
 _Bool nv_abad;
 int64_t nv_red_calls, nv_red_n; double nv_red_summand;
+_Bool nv_red_hit; double nv_rss_summand_g;      /* a reduction of the min-RSS summand of the tracked bin (named in a precondition) was computed */
 double __CPROVER_uninterpreted_rsum(double);
 #define NV_RSUM(summand) __CPROVER_uninterpreted_rsum(summand)
 /* the spec functions of the property, as terms over the tracked cells */
@@ -37,7 +38,7 @@ double __CPROVER_uninterpreted_rsum(double);
 
 /* ASSUMED (Eigen): E.sum() adds the coefficients of E */
 static double nv_reduce_sum(double summand, int64_t n)
-{ nv_red_calls = (nv_red_calls < NV_MAXN) ? nv_red_calls + 1 : nv_red_calls; nv_red_n = n; nv_red_summand = summand; return NV_RSUM(summand); }
+{ nv_red_calls = (nv_red_calls < NV_MAXN) ? nv_red_calls + 1 : nv_red_calls; nv_red_n = n; nv_red_summand = summand; if (NV_IDENT(summand, nv_rss_summand_g)) nv_red_hit = 1; return NV_RSUM(summand); }
 /* ASSUMED (accumulator.h inline accessors): x0(bin) = m_x0(bin), r1(bin) = m_r1.array(bin), ... with the bin index in range */
 static double* nv_acc_x(struct nv_accum* a, int64_t bin, int which)
 {
@@ -66,7 +67,7 @@ static void nv_dvec_sort(uint64_t begin, uint64_t end, struct nv_dvec* v) { if (
 
 #define NV_ACC_OK(self) (__CPROVER_is_fresh(self, sizeof(*(self))) && 0 <= (self)->bins && (self)->bins <= NV_MAXN && 0 <= (self)->outs && (self)->outs <= NV_MAXN \
   && 0 <= nv_b && nv_b < (self)->bins && 0 <= nv_o && nv_o < (self)->outs && !nv_abad && nv_red_calls == 0)
-#define NV_RED_GHOST nv_red_calls, nv_red_n, nv_red_summand
+#define NV_RED_GHOST nv_red_calls, nv_red_n, nv_red_summand, nv_red_hit
 /* accumulator_t::sort(): one (gain, bin) entry per bin, the whole vector sorted; the gain of bin nv_b is NV_GAIN */
 #define NV_LOOP_acc_sort_1 \
 __CPROVER_assigns(bin, deltas, nv_abad, NV_RED_GHOST) \
@@ -172,21 +173,24 @@ __CPROVER_requires(NV_ACC_OK(self) && __CPROVER_is_fresh(hashes, sizeof(*hashes)
 double nv_const_g;      /* ghost name of the optimal constant r1(nv_b, nv_o) / x0(nv_b) (no uninterpreted function inside loop invariants) */
 #define NV_CONST_DEF(self) NV_IDENT(nv_const_g, NV_FDIV((self)->r1g, (self)->x0g))
 /* ---- score_dense: row = bin, so the tracked row is the tracked bin */
-#define NV_CONTRACT_tbl_score_dense NV_TBL_REQ __CPROVER_requires(nv_tr == nv_b && NV_CONST_DEF(self)) NV_TBL_ASSIGNS \
+#define NV_CONTRACT_tbl_score_dense NV_TBL_REQ __CPROVER_requires(nv_tr == nv_b && NV_CONST_DEF(self)) \
+__CPROVER_requires(!nv_red_hit && NV_IDENT(nv_rss_summand_g, NV_FSUB(self->r2g, NV_FDIV(NV_SQ(self->r1g), self->x0g)))) NV_TBL_ASSIGNS \
 __CPROVER_ensures(nv_ms_calls == 1 && nv_ms_n == self->m_samples) \
+/* .rss: the rss is accumulated from exactly one reduction per bin; the one of the tracked bin is SUM_o (r2 - r1^2 / x0) of THAT bin (its minimum RSS: rss_smt) */ \
+__CPROVER_ensures(nv_red_calls == self->bins && nv_red_hit) \
 __CPROVER_ensures(NV_TBL_STORED(self, feature, hashes) && (nv_stores_t > 0 ==> (nv_stores_t == 1 && nv_store_k == self->bins && NV_IDENT(nv_store_score_t, nv_ms_score)))) \
 /* .3 the coefficients stored for a bin are its optimal constants */ \
 __CPROVER_ensures(nv_stores_t > 0 ==> NV_IDENT(self->m_tables.g, NV_FDIV(self->r1g, self->x0g))) \
 __CPROVER_ensures(nv_stores_t == 0 ==> (NV_IDENT(self->m_score, __CPROVER_old(self->m_score)) && self->m_feature == __CPROVER_old(self->m_feature) && self->m_hashes.n == __CPROVER_old(self->m_hashes.n)))
 #define NV_LOOP_tbl_score_dense_1 \
-__CPROVER_assigns(bin, rss, NV_RED_GHOST) __CPROVER_loop_invariant(0 <= bin && bin <= bins && bins == self->bins) __CPROVER_decreases(bins - bin)
+__CPROVER_assigns(bin, rss, NV_RED_GHOST) __CPROVER_loop_invariant(0 <= bin && bin <= bins && bins == self->bins && nv_red_calls == bin && ((bin > nv_b) ==> (nv_red_hit != 0))) __CPROVER_decreases(bins - bin)
 #define NV_LOOP_tbl_score_dense_2 \
 __CPROVER_assigns(bin, self->m_hash2tables.g, self->m_tables.g, nv_other, nv_other_i) \
 __CPROVER_loop_invariant(0 <= bin && bin <= bins && bins == self->bins && self->m_hash2tables.n == bins && self->m_tables.rows == bins && self->m_tables.outs == self->outs) \
 __CPROVER_loop_invariant(bin > nv_b ==> (self->m_hash2tables.g == nv_b && NV_IDENT(self->m_tables.g, nv_const_g))) \
 __CPROVER_decreases(bins - bin)
 /* ---- score_kbest: row fv stands for the bin sorted at position fv; the tracked bin is the one sorted at the tracked row */
-#define NV_KB_STORED(self, feature, hashes) (NV_TBL_STORED(self, feature, hashes) && (nv_stores_t > 0 ==> (nv_store_k <= max_kbest && NV_IDENT(nv_store_score_t, nv_kb_score_g) \
+#define NV_KB_STORED(self, feature, hashes) (NV_TBL_STORED(self, feature, hashes) && (nv_stores_t > 0 ==> (nv_store_k <= NV_LOOPBOUND_tbl_score_kbest_2 && NV_IDENT(nv_store_score_t, nv_kb_score_g) \
   && (nv_tr < nv_store_k ==> NV_IDENT((self)->m_tables.g, nv_const_g)))))
 double nv_kb_score_g;
 #define NV_CONTRACT_tbl_score_kbest NV_TBL_REQ __CPROVER_requires(NV_CONST_DEF(self) && max_kbest <= self->bins) NV_TBL_ASSIGNS \
@@ -196,16 +200,17 @@ __CPROVER_ensures((nv_stores_t > 0 && nv_tr < nv_store_k) ==> NV_IDENT(self->m_t
 __CPROVER_ensures(nv_stores_t == 0 ==> (NV_IDENT(self->m_score, __CPROVER_old(self->m_score)) && self->m_feature == __CPROVER_old(self->m_feature) && self->m_hashes.n == __CPROVER_old(self->m_hashes.n)))
 #define NV_LOOP_tbl_score_kbest_1 \
 __CPROVER_assigns(bin, rss, NV_RED_GHOST) __CPROVER_loop_invariant(0 <= bin && bin <= bins && bins == self->bins) __CPROVER_decreases(bins - bin)
+/* the k-best loop's counter and bound are named by their role (NV_LOOPVAR / NV_LOOPBOUND): the source may call them anything */
 #define NV_LOOP_tbl_score_kbest_2 \
-__CPROVER_assigns(kbest, rss, self->m_score, self->m_feature, self->m_hashes.n, self->m_hashes.g, self->m_hash2tables.n, self->m_hash2tables.g, self->m_tables.rows, self->m_tables.outs, \
+__CPROVER_assigns(NV_LOOPVAR_tbl_score_kbest_2, rss, self->m_score, self->m_feature, self->m_hashes.n, self->m_hashes.g, self->m_hash2tables.n, self->m_hash2tables.g, self->m_tables.rows, self->m_tables.outs, \
   self->m_tables.g, nv_other, nv_other_u, nv_ms_calls, nv_ms_k, nv_ms_n, nv_ms_score, nv_stores_t, nv_store_k, nv_store_score_t, nv_kb_score_g) \
-__CPROVER_loop_invariant(1 <= kbest && kbest <= max_kbest + 1 && max_kbest <= self->bins && bins == self->bins && 0 <= nv_ms_calls && 0 <= nv_stores_t) \
-__CPROVER_loop_invariant(NV_KB_STORED(self, feature, hashes) && (nv_stores_t > 0 ==> nv_store_k < kbest)) \
+__CPROVER_loop_invariant(1 <= NV_LOOPVAR_tbl_score_kbest_2 && NV_LOOPVAR_tbl_score_kbest_2 <= NV_LOOPBOUND_tbl_score_kbest_2 + 1 && NV_LOOPBOUND_tbl_score_kbest_2 <= self->bins && bins == self->bins && 0 <= nv_ms_calls && 0 <= nv_stores_t) \
+__CPROVER_loop_invariant(NV_KB_STORED(self, feature, hashes) && (nv_stores_t > 0 ==> nv_store_k < NV_LOOPVAR_tbl_score_kbest_2)) \
 __CPROVER_loop_invariant(nv_stores_t == 0 ==> (NV_IDENT(self->m_score, __CPROVER_loop_entry(self->m_score)) && self->m_feature == __CPROVER_loop_entry(self->m_feature) \
    && self->m_hashes.n == __CPROVER_loop_entry(self->m_hashes.n))) \
-__CPROVER_decreases(max_kbest + 1 - kbest)
+__CPROVER_decreases(NV_LOOPBOUND_tbl_score_kbest_2 + 1 - NV_LOOPVAR_tbl_score_kbest_2)
 #define NV_LOOP_tbl_score_kbest_3 \
 __CPROVER_assigns(fv, self->m_hashes.g, self->m_tables.g, nv_other, nv_other_u) \
-__CPROVER_loop_invariant(0 <= fv && fv <= kbest && self->m_hashes.n == kbest && self->m_tables.rows == kbest && self->m_tables.outs == self->outs) \
+__CPROVER_loop_invariant(0 <= fv && fv <= NV_LOOPVAR_tbl_score_kbest_2 && self->m_hashes.n == NV_LOOPVAR_tbl_score_kbest_2 && self->m_tables.rows == NV_LOOPVAR_tbl_score_kbest_2 && self->m_tables.outs == self->outs) \
 __CPROVER_loop_invariant(fv > nv_tr ==> (self->m_hashes.g == hashes->g && NV_IDENT(self->m_tables.g, nv_const_g))) \
-__CPROVER_decreases(kbest - fv)
+__CPROVER_decreases(NV_LOOPVAR_tbl_score_kbest_2 - fv)
